@@ -589,3 +589,30 @@ Proof.
   - right. exists site. split; [reflexivity|]. split; [exact H|]. eapply mstep_panic_site_named. exact E.
   - left. split; [reflexivity|exact (H Hc)].
 Qed.
+
+(** [mstep_panic_site], unfolded *)
+Lemma mstep_panic_site_unfolded s o :
+  mstep_panic_site s o =
+  match o with
+  | MK (XOp o') | MK (XCrash _ o') =>
+      match o' with
+      | OpReplay x cp =>
+          if replay_earlier_guard (ms_k s) x cp then Some site_replay_earlier
+          else if replay_fuel_guard (ms_k s) x cp then Some site_replay_fuel
+          else None
+      | _ => None
+      end
+  | MK XRestart | MSMRead | MGRead => None
+  | MEnter h r | MEnterK h r _ => enter_panic_site (ms_k s) h r
+  | MAct (ActPrevote t _) =>
+      act_vote_panic_site KPrevote (ms_k s) (smm_h (m_sm (ms_m s))) (smm_r (m_sm (ms_m s))) (smm_key (m_sm (ms_m s))) t
+  | MAct (ActPrecommit t _) =>
+      act_vote_panic_site KPrecommit (ms_k s) (smm_h (m_sm (ms_m s))) (smm_r (m_sm (ms_m s))) (smm_key (m_sm (ms_m s))) t
+  | MAct (ActPH p) => match hd_hash (ph_hdr p) with [] => Some site_no_action | _ :: _ => None end
+  end.
+Proof. destruct o as [[o'|k o'|]|h r| | |h r key|[t sg|t sg|p]]; reflexivity. Qed.
+
+Lemma reads_and_entrances_keep_kernel_state s o s' r io :
+  match o with MEnter _ _ | MEnterK _ _ _ | MSMRead | MGRead => True | MK _ | MAct _ => False end ->
+  mstep s o = Ok (s', r, io) -> ms_k s' = ms_k s /\ r = 0.
+Proof. intros H. apply quiet_keeps_kernel. destruct o; try reflexivity; contradiction. Qed.
